@@ -125,6 +125,10 @@ func c08One(ws *pipe.Workspace, idx int64, s *lexref.Spec, L int, st *mc.Stats) 
 	}
 	st.Evaluations++
 	st.Validated++
+	if b.ModeCountProblem != "" {
+		out = append(out, mc.Violation{Property: "C10", Check: "C08", Kind: "mode-tables-missing", Size: len(s.OneLine()),
+			Case: lexCaseJSON("ng", idx, s, nil, nil, L), Detail: "spec {" + s.OneLine() + "}: " + b.ModeCountProblem})
+	}
 	classify := func(detail string) string {
 		// D3 model: the spec contains +? and the real machine behaves exactly
 		// like the same spec with +? read as greedy +.
